@@ -4,6 +4,7 @@ from concurrent.futures import ProcessPoolExecutor
 
 import common
 from common import KS, lang, lean_batch, sexpr, to_obj, tree_depth, tree_ops, tree_str
+from gen.formulas import well_formed
 
 
 def ref_tree(t):
@@ -82,7 +83,7 @@ def shrink(logic, K, tree, entry, differs):
                     yield t[:i] + (c2,) + t[i + 1:]
         for cand in subs(tree):
             try:
-                if differs(K, cand):
+                if well_formed(logic, cand) and differs(K, cand):
                     tree = cand
                     changed = True
                     break
